@@ -48,6 +48,9 @@ LAYOUT_GRAMMARS = [
     ('pattern-inline', [gs.Rule('start', ('seq', T('a'), ('pat', r'\d+'), ('opt', T('+')), ('eof',)))], ['a', '1', '+'], False),
     ('upper', [gs.Rule('start', ('seq', ('clo', ('alt', C('NUM'), T('+'))), ('eof',))), gs.Rule('NUM', ('pat', r'\d+'))], ['1', '+'], False),
     ('upper-token', [gs.Rule('start', ('seq', T('a'), C('B'), ('eof',))), gs.Rule('B', T('b'))], ['a', 'b'], False),
+    # skip-to over a target that is not a token: blanks and comments on the way are stepped over whole (the comment text `c`, `d` matches the target)
+    ('skipto-upper', [gs.Rule('start', ('seq', T('a'), ('skipto', C('W')), T('+'), ('eof',))), gs.Rule('W', ('pat', r'\w+'))], ['a', 'x1', '+'], False),
+    ('skipto-pattern', [gs.Rule('start', ('seq', ('clo', ('seq', ('skipto', ('pat', r'[a-z]\d?')), ('opt', T('+')))), ('eof',)))], ['x1', 'y', '+'], False),
 ]
 # a second comment syntax whose patterns start with a name character (REM...; and --... with namechars '-')
 ALT_DIRS = {'comments': r'REM[^;]*;', 'eol_comments': r'--[^\n]*', 'namechars': '-'}
